@@ -317,6 +317,26 @@ struct Run {
 }
 
 /// Drive the API surface over the given per-dial scripts.
+/// A writer with a quota (1 MiB here): it takes what it is given until the quota is used up, then fails. A caller that
+/// streams into it stops there; one that collects the whole body first never gets that far with an endless body.
+struct QuotaWriter {
+    left: usize,
+}
+
+impl std::io::Write for QuotaWriter {
+    fn write(&mut self, buf: &[u8]) -> std::io::Result<usize> {
+        if self.left == 0 {
+            return Err(std::io::Error::new(std::io::ErrorKind::Other, "harness: the writer's quota is used up"));
+        }
+        let n = buf.len().min(self.left);
+        self.left -= n;
+        Ok(n)
+    }
+    fn flush(&mut self) -> std::io::Result<()> {
+        Ok(())
+    }
+}
+
 fn drive(url: &str, proxy: Option<&str>, scripts: Vec<Vec<Ev>>, limit: usize, api: &Api, max_headers: Option<usize>) -> Run {
     let (_guard, net) = serve_scripts_limited(scripts, limit);
     let mut rb = attohttpc::get(url);
@@ -347,7 +367,11 @@ fn drive(url: &str, proxy: Option<&str>, scripts: Vec<Vec<Ev>>, limit: usize, ap
     };
     let base_mark = alloc::mark();
     match rb.send() {
-        Err(_) => run.err = true,
+        Err(e) => {
+            run.err = true;
+            // an error can be shown: whatever the peer put into it (a refusal page in any encoding, a status, a header value)
+            run.harness_buf += format!("{e} / {e:?}").len();
+        }
         Ok(resp) => {
             run.past_head = true;
             let _ = resp.is_success();
@@ -431,7 +455,7 @@ fn drive(url: &str, proxy: Option<&str>, scripts: Vec<Vec<Ev>>, limit: usize, ap
                     },
                     Err(_) => run.err = true,
                 },
-                Api::WriteTo => match resp.write_to(std::io::sink()) {
+                Api::WriteTo => match resp.write_to(QuotaWriter { left: 1 << 20 }) {
                     Ok(n) => run.delivered = n as usize,
                     Err(_) => run.err = true,
                 },
@@ -501,12 +525,13 @@ CONNECT) then a generated API call mix. Oracle: no panic, termination decided by
             Api::Text,
             Api::Json,
             Api::TextReader(7),
+            Api::WriteTo,
         ];
         // (fixed members: JSON nested far deeper than any stack, read with json())
         let deep = [(20u8, true, false), (20, false, false), (19, true, true), (12, true, false)]
             .into_iter()
             .map(|(levels_log2, closed, objects)| Case::Mutant { base: Base::DeepJson { levels_log2, closed, objects }, ops: vec![], seg: Seg::Whole, api: Api::Json });
-        let endless = (0..20u8).flat_map(move |kind| apis.clone().into_iter().map(move |api| Case::Endless { kind, api }));
+        let endless = (0..20u8).flat_map(move |kind| apis.clone().into_iter().map(move |api| Case::Endless { kind, api })).chain((20..22u8).map(|kind| Case::Endless { kind, api: Api::WriteTo }));
         Some(Box::new(
             alpha
                 .chain(endless)
@@ -609,6 +634,8 @@ CONNECT) then a generated API call mix. Oracle: no panic, termination decided by
                 run = drive(url, proxy, scripts, 0, api, None);
             }
             Case::Endless { kind, api } => {
+                // (kinds 20 and 21 are endless *bodies*: only a caller that streams them into a writer with a quota ever stops)
+                let api = &if *kind >= 20 { Api::WriteTo } else { api.clone() };
                 json = matches!(api, Api::Json);
                 let head = |extra: &str| format!("HTTP/1.1 200 OK\r\n{extra}").into_bytes();
                 let k16 = 16 * 1024;
@@ -713,6 +740,8 @@ CONNECT) then a generated API call mix. Oracle: no panic, termination decided by
                         None,
                         "endless:redirect-body-chunked",
                     ),
+                    20 => ("http://origin.test/", None, vec![vec![Ev::Data(head("\r\n")), Ev::Endless(vec![b'z'; 4096])]], (1 << 20) + 4 * k16, None, "endless:body-into-a-writer-with-a-quota"),
+                    21 => ("http://origin.test/", None, vec![vec![Ev::Data(HEAD_CHUNKED.to_vec()), Ev::Endless(b"400\r\n".iter().copied().chain(std::iter::repeat(b'z').take(1024)).chain(b"\r\n".iter().copied()).collect())]], (1 << 20) + 8 * k16, None, "endless:chunked-body-into-a-writer-with-a-quota"),
                     _ => (
                         "http://origin.test/",
                         None,
@@ -733,7 +762,7 @@ CONNECT) then a generated API call mix. Oracle: no panic, termination decided by
                 if *kind == 6 && run.dials != 6 {
                     return Outcome::fail("C05:redirect-chain-unbounded", format!("an endless redirect chain caused {} exchanges (max_redirections is 5)", run.dials));
                 }
-                if *kind <= 5 || *kind == 10 || *kind == 11 || *kind == 13 || *kind == 14 {
+                if *kind <= 5 || *kind == 10 || *kind == 11 || *kind == 13 || *kind == 14 || *kind >= 20 {
                     if !run.err {
                         return Outcome::fail(format!("C05:{label}:accepted"), "an endless construct was accepted without error".to_string());
                     }
